@@ -430,7 +430,7 @@ package transport
 // No operation before the handshake is accepted: init() returns true only after the FIRST message was a
 // connection_init, the init function (if any) accepted it, and the ack was written; init itself never touches
 // the executor. Do() only enters the message loop after init() returned true.
-//@ func (*wsConnection).init [C11]
+//@ func (*wsConnection).init [C11,C10]
 //@   requires c != nil
 //@   ghost acked = false
 //@   at `c.write(&message{t: connectionAckMessageType, payload: initJsonAckPayload})` requires m.t == initMessageType && err == nil
@@ -439,7 +439,10 @@ package transport
 //@   at `c.write(&message{t: connectionAckMessageType})` ghost acked = true
 //@   ensures res0 ==> acked
 //@   ensures calls(subscribe) == 0 && calls(CreateOperationContext) == 0 && calls(DispatchOperation) == 0 && calls(run) == 0
-//@   ensures !res0 ==> !acked || calls(Unmarshal) == 1
+// a refused handshake always ends in a protocol close (which also fires the close callback): the client is never
+// left with a silent, open socket
+//@   ensures !res0 ==> calls(close) >= 1 && !acked
+//@   replay wsInitPayload.go.tmpl
 //@ trusted (*wsConnection).run()
 //@ trusted (*github.com/gorilla/websocket.Upgrader).Upgrade(w, r, h) (c, err)
 //@ trusted (*github.com/gorilla/websocket.Conn).Subprotocol() (s)
